@@ -1,16 +1,19 @@
 /-
-C03, html stage: chunk invariance of the TOTAL output (outputs of the `filter` calls followed by `end()`), at cuts that
-are safe for the tokenizer *up to splitting of text tokens*.
+C03, html stage: chunk invariance of the TOTAL output (outputs of the `filter` calls followed by `end()`) at EVERY cut.
 
-`SafeCutT tk L x r` (L = `last_buffer` before the call, x = the chunk, r = everything that follows): on the valid
-UTF-8 part, the tokens of `L ++ x ++ r` are — up to splitting / merging adjacent text tokens (`normText`) — the tokens
-processed for `L ++ x` followed by the tokens a FRESH tokenizer produces for `held tail ++ r`, with the same
-remainder; and the held tail starts at a character boundary.  This covers cuts at token boundaries, inside ordinary
-text (the text is emitted and harmlessly split), inside start / end tags and trailing partial tags (held back and
-re-tokenised from their first byte), and text containing `<` (held).  It fails exactly where the tokenizer context is
-lost (raw-text zones, comments, declarations, CDATA: known finding D4).
+Since fe7eac6 the stage carries the tokenizer context across chunks (`last_context`, `Tokenizer::new_fragment`) and keeps
+every token that was ended by the end of the data.  What the proof needs from the tokenizer is the restart law with a
+context, `RestartLaw tk` (Proofs/FilterStreamLaws.lean): on complete valid data, tokenising `a1 ++ a'` in context `c` gives —
+up to splitting / merging adjacent text tokens (`normText`), before the first cut token — the tokens processed for `a1`
+followed by the tokens of `kept tail ++ a'` in the remembered context; the kept tail starts at a character boundary; the
+remembered context is an accepted one.  The law is proved for the tokenizer model by W5 (Proofs/HtmlStream8*.lean).
+
+  `total_formula`  the total does not depend on the "held" rule
+  `total_split`    htmlTotal s (x ++ r) = o1 ++ htmlTotal s1 r          (every cut; `RestartLaw`)
+  `seqRun_total`   any schedule gives the total of the single chunk
 -/
 import RioModel.Proofs.FilterSplit
+import RioModel.Proofs.FilterUtf8
 set_option linter.unusedSimpArgs false
 set_option linter.unusedVariables false
 
@@ -88,174 +91,100 @@ theorem textEq_of_norm {a b : List Tok} (h : normText a = normText b) : TextEq a
 def htmlTotal (s : HtmlSt) (b : Bytes) : Option Bytes :=
   (filterHtml tk ev s b).map fun r => r.2 ++ endHtml r.1
 
-/-- the token the "held" rule keeps back is a text token at the end of the list -/
-theorem splitHeld_cases (ts : List Tok) :
-    (splitHeld ts = (ts, [])) ∨
-    (∃ t, t.kind = .text ∧ ts = (splitHeld ts).1 ++ [t] ∧ (splitHeld ts).2 = t.raw) := by
-  unfold splitHeld
-  split
-  · rename_i t ht
-    split
-    · rename_i hc
-      right
-      obtain ⟨ys, hys⟩ := List.getLast?_eq_some_iff.mp ht
-      refine ⟨t, hc.1, ?_, rfl⟩
-      simp [hys]
-    · left; rfl
-  · rename_i ht
-    simp at ht
-    left; simp [ht]
-
-/-- the total does not depend on the "held" rule: it is the ledger after ALL complete tokens, then the remainder -/
+/-- the total does not depend on the "held" rule: it is the ledger after ALL tokens before the first cut one, then the
+cut token and the remainder -/
 theorem total_formula (s : HtmlSt) (b data pending : Bytes) (h : utf8Split (s.last ++ b) = some (data, pending)) :
     htmlTotal tk ev s b =
-      some (ledger ((tk data).1.foldl (stepTok tk ev) (s, [])).1 ((tk data).1.foldl (stepTok tk ev) (s, [])).2 ++
-        (tk data).2 ++ pending) := by
-  unfold htmlTotal filterHtml
+      some (ledger ((view tk s.ctx data).all.foldl (stepTok tk ev) (s, [])).1
+          ((view tk s.ctx data).all.foldl (stepTok tk ev) (s, [])).2 ++
+        (view tk s.ctx data).rem ++ pending) := by
+  unfold htmlTotal
+  rw [filterHtml_view]
   simp only [h, Option.map_some]
   congr 1
-  rcases splitHeld_cases (tk data).1 with hc | ⟨t, hk, hts, hraw⟩
-  · rw [hc]
-    simp only [endHtml_eq, ledger, List.nil_append, List.append_assoc]
-  · generalize hsh : splitHeld (tk data).1 = sh at hts hraw
-    obtain ⟨todo, held⟩ := sh
-    simp only at hts hraw ⊢
-    rw [hts, List.foldl_append, List.foldl_cons, List.foldl_nil]
-    rw [stepTok_text tk ev _ t hk, ledger_push, hraw]
+  rcases view_cases tk s.ctx data with ⟨h1, h2⟩ | ⟨t, hk, h1, h2⟩
+  · rw [h1, h2]
     simp only [endHtml_eq, ledger, List.append_assoc]
-
-/-! ### safe cuts for the total -/
-
-/-- see the header; `r` = everything that follows the chunk `x` -/
-def SafeCutT (L x r : Bytes) : Prop :=
-  ∀ a1 p1, utf8Split (L ++ x) = some (a1, p1) →
-    u8Run {} ((splitHeld (tk a1).1).2 ++ (tk a1).2) = some {} ∧
-    ∀ a' p', utf8Split (p1 ++ r) = some (a', p') →
-      normText (tk (a1 ++ a')).1 =
-        normText ((splitHeld (tk a1).1).1 ++ (tk ((splitHeld (tk a1).1).2 ++ (tk a1).2 ++ a')).1) ∧
-      (tk (a1 ++ a')).2 = (tk ((splitHeld (tk a1).1).2 ++ (tk a1).2 ++ a')).2
-
-def safeCutTB (L x r : Bytes) : Bool :=
-  match utf8Split (L ++ x) with
-  | none => true
-  | some (a1, p1) =>
-    let todo1 := (splitHeld (tk a1).1).1
-    let tail := (splitHeld (tk a1).1).2 ++ (tk a1).2
-    (u8Run {} tail == some {}) &&
-    match utf8Split (p1 ++ r) with
-    | none => true
-    | some (a', _) =>
-      let w := tk (a1 ++ a')
-      let c := tk (tail ++ a')
-      (normText w.1 == normText (todo1 ++ c.1)) && (w.2 == c.2)
-
-theorem safeCutTB_sound (L x r : Bytes) (h : safeCutTB tk L x r = true) : SafeCutT tk L x r := by
-  intro a1 p1 h1
-  simp only [safeCutTB, h1, Bool.and_eq_true, beq_iff_eq] at h
-  refine ⟨h.1, ?_⟩
-  intro a' p' h2
-  have h3 := h.2
-  simp only [h2, Bool.and_eq_true, beq_iff_eq] at h3
-  exact h3
+  · rw [h1, h2, List.foldl_append, List.foldl_cons, List.foldl_nil]
+    rw [stepTok_text tk ev _ t hk, ledger_push]
+    simp only [endHtml_eq, ledger, List.append_assoc]
 
 theorem filterHtml_none_of (s : HtmlSt) (b : Bytes) (h : utf8Split (s.last ++ b) = none) :
     filterHtml tk ev s b = none := by
   unfold filterHtml
   rw [h]
 
-/-- **Splitting lemma for the total**: at a safe cut, the total on `x ++ r` is the output of `filter(x)` followed by
-the total of the new state on `r`. -/
-theorem total_split (s s1 : HtmlSt) (x r o1 : Bytes)
-    (h1 : filterHtml tk ev s x = some (s1, o1)) (hsafe : SafeCutT tk s.last x r) :
-    htmlTotal tk ev s (x ++ r) = (htmlTotal tk ev s1 r).map fun t => o1 ++ t := by
-  unfold filterHtml at h1
+/-- the state after a call remembers an accepted context -/
+theorem filterHtml_ctx (hr : RestartLaw tk) (s s1 : HtmlSt) (x o1 : Bytes) (hc : Ctx s.ctx)
+    (h1 : filterHtml tk ev s x = some (s1, o1)) : Ctx s1.ctx := by
+  rw [filterHtml_view] at h1
   cases hsp : utf8Split (s.last ++ x) with
   | none => simp [hsp] at h1
   | some ap =>
     obtain ⟨a1, p1⟩ := ap
     simp only [hsp] at h1
-    obtain ⟨hv, hrest⟩ := hsafe a1 p1 hsp
-    generalize htk1 : tk a1 = tk1 at h1 hv hrest
-    obtain ⟨ts1, r1⟩ := tk1
-    generalize hsh1 : splitHeld ts1 = sh1 at h1 hv hrest
-    obtain ⟨todo1, hd1⟩ := sh1
-    simp only at h1 hv hrest
-    generalize hf1 : todo1.foldl (stepTok tk ev) (s, []) = f1 at h1
+    injection h1 with h1
+    injection h1 with hs1 _
+    subst hs1
+    exact (hr s.ctx a1 [] hc (V_utf8Split hsp) V_nil).2.2.2
+
+/-- **Splitting lemma for the total** (every cut): the total on `x ++ r` is the output of `filter(x)` followed by the
+total of the new state on `r`. -/
+theorem total_split (hr : RestartLaw tk) (s s1 : HtmlSt) (x r o1 : Bytes) (hc : Ctx s.ctx)
+    (h1 : filterHtml tk ev s x = some (s1, o1)) :
+    htmlTotal tk ev s (x ++ r) = (htmlTotal tk ev s1 r).map fun t => o1 ++ t := by
+  rw [filterHtml_view] at h1
+  cases hsp : utf8Split (s.last ++ x) with
+  | none => simp [hsp] at h1
+  | some ap =>
+    obtain ⟨a1, p1⟩ := ap
+    simp only [hsp] at h1
+    have hva1 : V a1 := V_utf8Split hsp
+    generalize hv1 : view tk s.ctx a1 = v1 at h1
+    generalize hf1 : v1.todo.foldl (stepTok tk ev) (s, []) = f1 at h1
     obtain ⟨sf1, of1⟩ := f1
     simp only at h1
     injection h1 with h1
     injection h1 with hs1 ho1
     subst hs1 ho1
-    have hu2 : utf8Split ((hd1 ++ r1 ++ p1) ++ r) = (utf8Split (p1 ++ r)).map fun q => ((hd1 ++ r1) ++ q.1, q.2) := by
+    have hvt : V v1.tail := by
+      have := (hr s.ctx a1 [] hc hva1 V_nil).2.2.1
+      rw [hv1] at this; exact this
+    have hu2 : utf8Split ((v1.tail ++ p1) ++ r) = (utf8Split (p1 ++ r)).map fun q => (v1.tail ++ q.1, q.2) := by
       rw [List.append_assoc]
-      exact utf8Split_prefix (hd1 ++ r1) (p1 ++ r) hv
+      exact utf8Split_prefix v1.tail (p1 ++ r) hvt
     have hu : utf8Split (s.last ++ (x ++ r)) = (utf8Split (p1 ++ r)).map fun q => (a1 ++ q.1, q.2) := by
       rw [← List.append_assoc]
       exact utf8Split_append_right hsp r
     cases hpr : utf8Split (p1 ++ r) with
     | none =>
-      -- both calls fail on invalid UTF-8
       rw [hpr] at hu hu2
       have e1 : filterHtml tk ev s (x ++ r) = none := filterHtml_none_of tk ev s (x ++ r) hu
-      have e2 : filterHtml tk ev { sf1 with last := hd1 ++ r1 ++ p1 } r = none :=
+      have e2 : filterHtml tk ev { sf1 with last := v1.tail ++ p1, ctx := v1.ctx' } r = none :=
         filterHtml_none_of tk ev _ r hu2
       simp only [htmlTotal, e1, e2, Option.map_none]
     | some ap' =>
       obtain ⟨a', p'⟩ := ap'
-      obtain ⟨hk1, hk2⟩ := hrest a' p' hpr
+      have hva' : V a' := V_utf8Split hpr
+      obtain ⟨hk1, hk2, _, _⟩ := hr s.ctx a1 a' hc hva1 hva'
+      rw [hv1] at hk1 hk2
       rw [hpr] at hu hu2
       simp only [Option.map_some] at hu hu2
       rw [total_formula tk ev s (x ++ r) (a1 ++ a') p' hu]
-      rw [total_formula tk ev { sf1 with last := hd1 ++ r1 ++ p1 } r ((hd1 ++ r1) ++ a') p' hu2]
+      rw [total_formula tk ev { sf1 with last := v1.tail ++ p1, ctx := v1.ctx' } r (v1.tail ++ a') p' hu2]
       simp only [Option.map_some]
       congr 1
       rw [fold_textEq tk ev (textEq_of_norm hk1), hk2, List.foldl_append, hf1]
-      generalize tk (hd1 ++ r1 ++ a') = tk2
-      obtain ⟨ts2, r2⟩ := tk2
-      simp only
-      have key := fold_setLast_out tk ev ts2 sf1 (hd1 ++ r1 ++ p1) []
-      have key2 := fold_setLast_out tk ev ts2 sf1 sf1.last of1
-      have e : ({ sf1 with last := sf1.last } : HtmlSt) = sf1 := rfl
+      generalize view tk v1.ctx' (v1.tail ++ a') = v2
+      have key := fold_setLast_out tk ev v2.all sf1 (v1.tail ++ p1) v1.ctx' []
+      have key2 := fold_setLast_out tk ev v2.all sf1 sf1.last sf1.ctx of1
+      have e : ({ sf1 with last := sf1.last, ctx := sf1.ctx } : HtmlSt) = sf1 := rfl
       rw [e] at key2
       rw [key, key2]
       simp [ledger, List.append_assoc]
 
-/-- every cut of the schedule is safe, seen from the state the stage is actually in when the chunk arrives
-(nothing is required of the last chunk: it is followed by `end()`, not by a cut) -/
-def SafeRun (s : HtmlSt) : List Bytes → Prop
-  | [] => True
-  | [_] => True
-  | x :: y :: rest =>
-    SafeCutT tk s.last x (y :: rest).flatten ∧
-      match filterHtml tk ev s x with
-      | none => True
-      | some (s1, _) => SafeRun s1 (y :: rest)
-
-def safeRunB (s : HtmlSt) : List Bytes → Bool
-  | [] => true
-  | [_] => true
-  | x :: y :: rest =>
-    safeCutTB tk s.last x (y :: rest).flatten &&
-      match filterHtml tk ev s x with
-      | none => true
-      | some (s1, _) => safeRunB s1 (y :: rest)
-
-theorem safeRunB_sound : ∀ (cs : List Bytes) (s : HtmlSt), safeRunB tk ev s cs = true → SafeRun tk ev s cs
-  | [], _, _ => trivial
-  | [_], _, _ => trivial
-  | x :: y :: rest, s, h => by
-    simp only [safeRunB, Bool.and_eq_true] at h
-    refine ⟨safeCutTB_sound tk _ _ _ h.1, ?_⟩
-    cases hf : filterHtml tk ev s x with
-    | none => trivial
-    | some r =>
-      obtain ⟨s1, o1⟩ := r
-      have := h.2
-      rw [hf] at this
-      exact safeRunB_sound (y :: rest) s1 this
-
-/-- **Chunk invariance of the html stage (total output) at safe cuts.** -/
-theorem seqRun_total : ∀ (cs : List Bytes) (s s' : HtmlSt) (o : Bytes), cs ≠ [] → SafeRun tk ev s cs →
+/-- **Chunk invariance of the html stage (total output), every schedule.** -/
+theorem seqRun_total (hr : RestartLaw tk) : ∀ (cs : List Bytes) (s s' : HtmlSt) (o : Bytes), cs ≠ [] → Ctx s.ctx →
     seqRun tk ev s cs = some (s', o) → htmlTotal tk ev s cs.flatten = some (o ++ endHtml s')
   | [], _, _, _, hne, _, _ => absurd rfl hne
   | [x], s, s', o, _, _, h => by
@@ -269,32 +198,43 @@ theorem seqRun_total : ∀ (cs : List Bytes) (s s' : HtmlSt) (o : Bytes), cs ≠
       injection h with h1 h2
       subst h1 h2
       simp [htmlTotal, hf]
-  | x :: y :: rest, s, s', o, _, hsafe, h => by
-    obtain ⟨hs1, hs2⟩ := hsafe
+  | x :: y :: rest, s, s', o, _, hc, h => by
     simp only [seqRun] at h
     cases hf : filterHtml tk ev s x with
     | none => simp [hf] at h
     | some r =>
       obtain ⟨s1, o1⟩ := r
-      rw [hf] at hs2
-      simp only at hs2
       have hrest : ∃ s2 o2, seqRun tk ev s1 (y :: rest) = some (s2, o2) ∧ s2 = s' ∧ o = o1 ++ o2 := by
         simp only [hf] at h
-        cases hr : seqRun tk ev s1 (y :: rest) with
-        | none => simp [seqRun] at hr h; simp [hr] at h
+        cases hr' : seqRun tk ev s1 (y :: rest) with
+        | none => simp [seqRun] at hr' h; simp [hr'] at h
         | some r2 =>
           obtain ⟨s2, o2⟩ := r2
-          simp only [seqRun] at hr h
-          rw [hr] at h
+          simp only [seqRun] at hr' h
+          rw [hr'] at h
           simp only [Option.map_some] at h
           injection h with h
           injection h with h1 h2
           exact ⟨s2, o2, rfl, h1, h2.symm⟩
-      obtain ⟨s2, o2, hr, rfl, rfl⟩ := hrest
-      have ih := seqRun_total (y :: rest) s1 s2 o2 (by simp) hs2 hr
-      have := total_split tk ev s s1 x (y :: rest).flatten o1 hf hs1
+      obtain ⟨s2, o2, hr2, rfl, rfl⟩ := hrest
+      have ih := seqRun_total hr (y :: rest) s1 s2 o2 (by simp) (filterHtml_ctx tk ev hr s s1 x o1 hc hf) hr2
+      have := total_split tk ev hr s s1 x (y :: rest).flatten o1 hc hf
       simp only [List.flatten_cons] at this ih ⊢
       rw [this, ih]
       simp [List.append_assoc]
+
+/-- a stage that holds nothing emits nothing for the empty stream (`run []` = `run [[]]`) -/
+theorem htmlTotal_nil (hl : LosslessS tk) (s : HtmlSt) (hlast : s.last = []) (hnil : (tk.stream s.ctx []).1 = []) :
+    htmlTotal tk ev s [] = some (endHtml s) := by
+  have hsp : utf8Split (s.last ++ []) = some ([], []) := by rw [hlast]; rfl
+  rw [total_formula tk ev s [] [] [] hsp]
+  have hrem := view_all_rem tk hl s.ctx []
+  have hall : (view tk s.ctx []).all = [] := by
+    unfold view
+    simp only [hnil, cutSplit, toksOf, List.takeWhile_nil, List.map_nil]
+  rw [hall] at hrem ⊢
+  simp only [rawsOf, List.flatMap_nil, List.nil_append] at hrem
+  rw [hrem]
+  simp [ledger, endHtml_eq, hlast]
 
 end Rio.Filter
